@@ -35,4 +35,4 @@ for res in sorted(glob.glob("/tmp/seedout/*/m*/result.json")):
     meta["caught"] = any(c["exit"] == 1 and c["violations"] for c in meta["checks"].values())
     meta.setdefault("evaluated_at_repo_commit", base)
     json.dump(meta, open(os.path.join(out, "meta.json"), "w"), indent=1)
-    print(name, "caught" if r.get("caught") else "MISSED")
+    print(name, "caught" if meta.get("caught") else "MISSED")
